@@ -298,6 +298,9 @@ def _k4(ctx: Context, ss, ser, des) -> None:
     # separator
     sf = ctx.func(f"{M}.serialize_typing_sequence")
     seps = {ctx.const(sf, x.args[0], None) for x in walk_own(sf.node) if isinstance(x, ast.Call) and isinstance(x.func, ast.Attribute) and x.func.attr == "extend" and x.args and isinstance(ctx.const(sf, x.args[0], None), bytes)}
+    # ... or `<separator>.join(<encoded items>)`: exactly one separator between neighbours, none before / after
+    seps |= {ctx.const(sf, x.func.value, None) for x in walk_own(sf.node) if isinstance(x, ast.Call) and isinstance(x.func, ast.Attribute) and x.func.attr == "join" and len(x.args) == 1
+             and isinstance(ctx.const(sf, x.func.value, None), bytes)}
     af = ctx.func(f"{M}.tlv_array")
     sep_default = ctx.const(af, af.node.args.defaults[-1], None) if af.node.args.defaults else None
     ck.check("C16.K4", seps == {bytes([sep_default or 0, 0])} and sep_default == 0, "sequence separator emitted (00 00) = separator the splitter looks for (type 0, length 0)", f"{M}:separator",
@@ -405,9 +408,16 @@ def _t1(ctx: Context) -> None:
 
     peek_nodes = [n for n in asg.get("peek_offset", []) + [m for k, v in asg.items() for m in v if k not in (offv, typv, lenv, valv)] if src(n.ast.value) in (f"{offv}+2+{lenv}", f"{offv}+{lenv}+2", f"2+{offv}+{lenv}")]
     peek_nodes = list({n.id: n for n in peek_nodes}.values())
-    ck.check("C16.T1", len(peek_nodes) == 1, "look-ahead offset = offset + 2 + length", f"{ctx.fkey(f)}:peek-offset", "tlv_iterator: the look-ahead offset is not offset + 2 + length", f.loc())
     if len(peek_nodes) != 1:
+        # a wrong look-ahead offset cannot be told from a differently organised iterator here (the accounting below is written
+        # for the `peek = offset + 2 + length` temporary): not decided rather than reported
+        wrong = [n for n in asg.get("peek_offset", []) if n not in peek_nodes]
+        if wrong:
+            ck.violated("C16.T1", f"{ctx.fkey(f)}:peek-offset", f"tlv_iterator: the look-ahead offset is `{src(wrong[0].ast.value)}`, not offset + 2 + length", ctx.loc(f, wrong[0]))
+        else:
+            ck.unknown("C16.T1", "tlv_iterator: no look-ahead temporary `offset + 2 + length` found: this organisation of the iterator is not decided", f.loc())
         return
+    ck.holds("C16.T1", "look-ahead offset = offset + 2 + length", ctx.loc(f, peek_nodes[0]))
     pk = peek_nodes[0]
     pkv = pk.ast.targets[0].id
     # bounds test before the read buf[peek]
